@@ -1175,7 +1175,7 @@ func oracleRegressions(c *hc.Ctx) {
 		off        float64
 		d          []float64
 	}{
-		{"C05-splitat-nan-at-curve-end (known): two cuts at parameter 1 of a cubic", "M14.449 -8C12.584 -8 -2 -7.602 5 10.294C3.615 -9 15.305 6.599 -10.432 6C9.661 -4.858 -10.647 16.065 6 -2z", 0, []float64{0.125}},
+		{"5884f31 two cuts at parameter 1 of a cubic (NaN piece)", "M14.449 -8C12.584 -8 -2 -7.602 5 10.294C3.615 -9 15.305 6.599 -10.432 6C9.661 -4.858 -10.647 16.065 6 -2z", 0, []float64{0.125}},
 		{"e14817f negative offset beyond one period", "M0 0L10 0", -5, []float64{2, 2}},
 		{"e14817f negative offset after folded leading zero", "M-1 0.25L3.625 0.25", -5, []float64{0, 5.375, 1.375, 3.375}},
 		{"8a98a46 cut between SplitAt's length and Path.Length (arc+quad)", "M2 -4.5A13.99387774096553 6.996938870482765 30.392049502180505 1 1 -14.036 1Q0.325 10.114 -2.638 3.5", 7.644705817225682, []float64{5.764, 4.535}},
